@@ -214,10 +214,36 @@ def s2(tier):
                 for cs in conss:
                     out.append(spec(factors, cross(names, cr, cs), 'S2'))
                 # the same weighted crossing repeated, with whole and partial last repetition
-                if D is None and size <= 3:
+                if size <= 3:
                     for mt in (2 * size, 2 * size + 1, 2 * size + 2):
                         out.append(spec(factors, {'op': 'repeat', 'block': cross(names, cr, []),
                                                   'constraints': [{'c': 'MinimumTrials', 'k': mt}]}, 'S2'))
+    return out
+
+
+def s2_small(tier):
+    """weighted crossings without bystander factors, so that longer sequences (partial trailing chunks of a scaled
+    crossing, several repetitions) stay within the reference limits"""
+    out = []
+    for w in ([2, 1], [1, 2], [3, 1], [2, 2]):
+        A = basic('A', 2, w)
+        size = sum(w)
+        for mt in range(size + 1, min(3 * size, 9) + 1):
+            out.append(spec([A], cross(['A'], ['A'], [{'c': 'MinimumTrials', 'k': mt}]), 'S2'))
+            out.append(spec([A], {'op': 'repeat', 'block': cross(['A'], ['A'], []), 'constraints': [{'c': 'MinimumTrials', 'k': mt}]}, 'S2'))
+        for cs in ([{'c': 'AtMostKInARow', 'k': 1, 'factor': 'A', 'level': 'a0'}], [{'c': 'ExactlyK', 'k': 2, 'factor': 'A', 'level': 'a0'}],
+                   [{'c': 'AtMostKInARow', 'k': 2, 'factor': 'A', 'level': None}]):
+            out.append(spec([A], cross(['A'], ['A'], cs), 'S2'))
+            out.append(spec([A], cross(['A'], ['A'], cs + [{'c': 'MinimumTrials', 'k': size + 2}]), 'S2'))
+    # two weighted crossed factors
+    A = basic('A', 2, [2, 1])
+    B = basic('B', 2, [1, 2])
+    for mt in (None, 10, 11):
+        out.append(spec([A, B], cross(['A', 'B'], ['A', 'B'], [{'c': 'MinimumTrials', 'k': mt}] if mt else []), 'S2'))
+    # a three-level weighted factor
+    C = basic('C', 3, [2, 1, 1])
+    for mt in (None, 5, 6, 7):
+        out.append(spec([C], cross(['C'], ['C'], [{'c': 'MinimumTrials', 'k': mt}] if mt else []), 'S2'))
     return out
 
 
@@ -469,7 +495,7 @@ def s9(tier):
     return out
 
 
-STRATA = {'S9': s9, 'S1': s1, 'S1x': s1_exclude, 'S2': s2, 'S3': s3, 'S4': s4, 'S5': s5, 'S6': s6}
+STRATA = {'S9': s9, 'S2s': s2_small, 'S1': s1, 'S1x': s1_exclude, 'S2': s2, 'S3': s3, 'S4': s4, 'S5': s5, 'S6': s6}
 
 
 def shape_key(d):
